@@ -150,6 +150,32 @@ def tpl(kind, vars_path, rng):
     return it
 
 
+HOSTILE_INLINE = {
+    "post": ["{{ query.__class__ }}", "{{ cycler.__init__.__globals__.os.popen('echo C16PWN').read() }}",
+             "{{ ''.__class__.__mro__[1].__subclasses__() | length }}", "Q{{ query }}{{ pipeline._clear_pipeline() }}",
+             "{{ rule.__init__.__globals__ | length }}"],
+    "fin": ["{{ queries.__class__ }}", "{{ cycler.__init__.__globals__.os.popen('echo C16PWN').read() }}",
+            "{{ ().__class__.__base__.__subclasses__() | length }}", "{{ queries|join(',') }}{{ pipeline._clear_pipeline() }}",
+            "{{ lipsum.__globals__.os.system('echo C16PWN') }}"],
+}
+TPL_DIR = R + "/tpl"
+PATH_TPLS = {"post": ["q.j2", "hostile_q.j2", "hostile_f.j2", "missing.j2"], "fin": ["f.j2", "hostile_f.j2", "missing.j2"]}
+
+
+def tpl_text(kind, text, vars_path=None):
+    it = {"type": "template", "template": text}
+    if vars_path is not None:
+        it["vars"] = vars_path
+    return it
+
+
+def tpl_path(kind, name, vars_path=None):
+    it = {"type": "template", "template": name, "path": TPL_DIR}
+    if vars_path is not None:
+        it["vars"] = vars_path
+    return it
+
+
 def nest_tr(items):
     return {"type": "nest", "items": items}
 
@@ -239,7 +265,9 @@ def random_doc(rng, mode=None):
 
     def post_item():
         r = rng.random()
-        if r < 0.5:
+        if r < 0.08:
+            it = rng.choice([tpl_text("post", rng.choice(HOSTILE_INLINE["post"])), tpl_path("post", rng.choice(PATH_TPLS["post"]))])
+        elif r < 0.5:
             it = tpl("post", rng.choice([None, None] + list(VARS_MENU)), rng)
         elif r < 0.7:
             it = {"type": "embed", "prefix": "[", "suffix": "]"}
@@ -257,7 +285,9 @@ def random_doc(rng, mode=None):
 
     def fin_item(depth):
         r = rng.random()
-        if r < 0.45:
+        if r < 0.08:
+            it = rng.choice([tpl_text("fin", rng.choice(HOSTILE_INLINE["fin"])), tpl_path("fin", rng.choice(PATH_TPLS["fin"]))])
+        elif r < 0.45:
             it = tpl("fin", rng.choice([None] + list(VARS_MENU)), rng)
         elif r < 0.6:
             it = {"type": "concat", "separator": ";"}
@@ -379,6 +409,23 @@ def gen(tier, rng):
         doc = {"transformations": [inject(ext_item(rng), rng, rng.choice(["none", "all"]))]}
         out.append(mk_case(doc, {"ext": entry == "yaml_src" and rng.random() < 0.5, "tv": False, "paths": None}, entry,
                            {"ext": rng.choice(ENV4), "tv": None}, ["a"], loc=loc, src=src, spec=spec, siblings=sib))
+    # ---- T: what a template may evaluate: hostile inline texts and file templates at every template position ----
+    for slot, depth in slots:
+        variants = [("inline", t) for t in HOSTILE_INLINE[slot]] + [("path", n) for n in PATH_TPLS[slot]]
+        for kind, t in variants:
+            for mode in ["none", "tpl"]:
+                for ev in ([None, "1"] if not quick else [None]):
+                    for vp in ([None, R + "/allowed/v_in.py"] if not (quick and depth > 1) else [None]):
+                        item = tpl_text(slot, t, vp) if kind == "inline" else tpl_path(slot, t, vp)
+                        item = inject(item, rng, mode)
+                        doc = {"transformations": [{"type": "wildcard_placeholders"}]}
+                        if slot == "post":
+                            doc["postprocessing"] = [item]
+                        else:
+                            doc["finalizers"] = [wrap(item, depth, nest_fin, rng, mode)]
+                        e, loc, src, spec, sib = rng.choice([("dict", "top", None, None, False), ("yaml", "top", None, None, False)] + all_routes[:8])
+                        out.append(mk_case(doc, {"ext": False, "tv": False, "paths": None}, e, {"ext": None, "tv": ev}, ["a"],
+                                           loc=loc, src=src, spec=spec, siblings=sib))
     # ---- C: hostile environment values for both gates ----
     for v in ENV_HOSTILE + ENV4:
         doc = {"transformations": [ext_item(rng, "file")]}
@@ -610,6 +657,7 @@ def to_coq(case, r):
         f"i_trace_load := {clist(tl)}",
         f"i_trace_conv := {clist(tc)}",
         f"i_leak := {cbool(r['leak'])}",
+        f"i_unsandboxed := {cbool(bool(r.get('unsandboxed')))}",
     ]
     return "{| " + "; ".join(fields) + " |}"
 
